@@ -2,7 +2,7 @@
    for single-source pipelines: the exported frame is the reference table, for all data. *)
 From Coq Require Import List String NArith ZArith Bool Lia Arith.
 From PDT Require Import Base.StableSort Model.Dtype Model.Value Model.Ops Model.Expr Model.RefSem Model.SqlCompile
-     Model.PlCompile Proofs.SortLemmas Proofs.RefLemmas Proofs.EvalLemmas Proofs.GroupLemmas Proofs.SqlCompileLemmas
+     Model.PlCompile Proofs.SortLemmas Proofs.RefLemmas Proofs.EvalLemmas Proofs.GroupLemmas Proofs.ListRel Proofs.SqlCompileLemmas
      Proofs.EvalRel.
 From PDTGen Require Import Catalogue.
 Import ListNotations.
